@@ -9,7 +9,7 @@ GEOMETRY = dict(
     ns="AdaptaVerif.Gen.Geometry",
     out="lean/AdaptaVerif/Gen/Geometry.lean",
     functions=["vecDir", "inBetween", "colinear", "pointOnLine", "segmentIntersect",
-               "inValidRegion", "cornerSide", "segmentIntersectPoint", "rayIntersectPoint"],
+               "inValidRegion", "cornerSide", "segmentIntersectPoint", "rayIntersectPoint", "inPoly"],
     constants={"DONT_INTERSECT": ("(0 : Int)", "Int"), "DO_INTERSECT": ("(1 : Int)", "Int"), "PARALLEL": ("(3 : Int)", "Int")},
 )
 
